@@ -59,3 +59,25 @@ Example C01_flavours_nonvacuous :
   segs_ok ascii_wordc rule_a /\ segs_ok ascii_wordc rule_b
   /\ map abs_of_seg rule_a = map abs_of_seg rule_b /\ print rule_a <> print rule_b.
 Proof. exact rules_ab_ok. Qed.
+
+(* From rule TEXT to the spec's [pat]: for a printed well-formed rule whose
+   literals contain no CR and which uses no rex selector, Route.parse_rule
+   succeeds and RouteSpec.pat_of of its (pattern, filters) is the abstract rule:
+   literals verbatim, one Wild per wildcard carrying its filter key (numbered by
+   ANY function [num], as the harness numbers the cached filter objects).  With
+   C01_resolve_eq_spec (which speaks about [pat]s) this covers routing from the
+   rule text a developer writes, in every syntax flavour. *)
+From Verif Require Import model.RouteSpec proofs.C01_text_to_pat.
+Theorem C01_rule_text_to_pat :
+  forall (wordc : N -> bool),
+    (forall c, In c [ch_slash; ch_gt; ch_rbrace; ch_dot; ch_colon; ch_lpar] -> wordc c = false) ->
+    forall (num : str -> fid) (l : list seg),
+      segs_ok wordc l -> abs_ok (map abs_of_seg l) ->
+      exists p,
+        parse_rule wordc (ch_slash :: print l) = inr p /\
+        pat_of (p_pattern p) (map (option_map num) (p_filters p)) = abs_pat num (map abs_of_seg l).
+Proof. exact text_to_pat. Qed.
+Print Assumptions C01_rule_text_to_pat.
+
+Example C01_text_to_pat_nonvacuous : abs_ok (map abs_of_seg rule_a).
+Proof. exact rule_a_abs_ok. Qed.
